@@ -2,20 +2,31 @@
 import Driver.Proto
 import Driver.Sexp
 import Dawgs.Spec.C09
+import Driver.C08
 /-! C09 model driver. Input line: `tree <sexp> syn=<k>` where the S-expression is the ANTLR parse tree
 (N ruleIndex child…); answer: the listener's verdict and error classes from the model, then ` | ` and the
 structural judgements used by the monitor. -/
 namespace Driver.C09
 open Dawgs.C09 Dawgs.C09.Inst Dawgs.Grammar Driver
 
+/-- trees with typed leaves `(L <tokenType> "text")` as in the c08/c07 suites (untyped `(L "text")` still accepted) -/
 partial def toTree : Sexp → Option Tree
   | .list (.atom "N" :: .atom r :: kids) => do
     let r ← r.toNat?
     let ks ← kids.mapM toTree
     pure (.node r ks)
+  | .list [.atom "L", .atom ty, .str s] => some (.leaf (ty ++ ":" ++ s))
+  | .list [.atom "E", .atom ty, .str s] => some (.err (ty ++ ":" ++ s))
   | .list [.atom "L", .str s] => some (.leaf s)
   | .list [.atom "E", .str s] => some (.err s)
   | _ => none
+
+/-- rules reported "not supported" by a method of the ACTIVE visitor (not BaseVisitor's, e.g. AtomVisitor.EnterOC_ShortestPathPattern):
+found by walking the tree with the listener model of C08 under the default context (Generated.Visitors.unsupMethods) -/
+def visitorUnsup (t : Tree) : List Nat :=
+  match Driver.C08.twalk Dawgs.C08.Inst.TD t (Dawgs.C08.Inst.TD.init, {}) with
+  | .ok (_, o) => o.vunsup
+  | .error _ => []
 
 def forbiddenIdx : List Nat := forbiddenNames.map idx
 
@@ -30,9 +41,11 @@ def step (_ : Unit) (ts : List String) : Unit × String :=
       | some t, some syn =>
         let rules := t.rules
         let filt := (rules.map T.filterErrCount).foldl (· + ·) 0
-        let unsup := rules.flatMap (fun r => List.replicate (T.unsupErrCount r) (ruleName r))
+        let vuns := visitorUnsup t
+        let unsup := rules.flatMap (fun r => List.replicate (T.unsupErrCount r) (ruleName r)) ++ vuns.map ruleName
         let unsupSorted := unsup.toArray.qsort (· < ·) |>.toList
-        let acc := syn == 0 && (T.listenerErrors t).isEmpty
+        -- more errors only shrink the accepted set: the theorems of Props/C09.lean are about `T.listenerErrors` and stay valid
+        let acc := syn == 0 && (T.listenerErrors t).isEmpty && vuns.isEmpty
         let forb := (rules.filter (forbiddenIdx.contains ·)).eraseDups.map ruleName
         ((), s!"acc={if acc then 1 else 0} filt={filt} unsup=[{",".intercalate unsupSorted}] | wf={if t.wf refs then 1 else 0} conforms={if t.conforms must then 1 else 0} root={t.rootRule.getD 999} forbidden=[{",".intercalate forb}]")
       | _, _ => ((), "bad-op")
